@@ -7,7 +7,7 @@ import os, sys, json, time, hashlib, subprocess, re, shutil
 VERIF = os.path.dirname(os.path.dirname(os.path.abspath(__file__)))
 LEAN = os.path.join(VERIF, "lean")
 SCRATCH = os.environ.get("VERIF_SCRATCH", os.path.join(VERIF, "scratch"))
-REPLAYS = os.path.join(VERIF, "replays")
+REPLAYS = os.environ.get("VERIF_REPLAYS") or os.path.join(VERIF, "replays")   # (seeded runs write theirs next to the seed)
 EVIDENCE = os.path.join(VERIF, "evidence")
 ALLOWED_AXIOMS = {"propext", "Classical.choice", "Quot.sound"}
 FORBIDDEN = re.compile(r"\b(sorry|admit|native_decide|bv_decide|implemented_by|unsafe)\b|^\s*axiom\s|maxHeartbeats\s+0")
